@@ -13,7 +13,7 @@ fn resolve(ix: &Index, len: i64) -> i64 {
     }
 }
 
-//@ props: C20, C08
+//@ props: C20
 //@ timeout: 900
 //@ desc: Selector::convert_index with EVERY index operand (plain i32 or last+k for every i32 k) and every array length 1..=4: no arithmetic overflow (overflow checks on), and the result is Some(p) exactly when the denoted position p lies inside the array
 //@ fns: Selector::convert_index
@@ -37,7 +37,7 @@ fn c20_convert_index_all() {
     kani::cover!(matches!(ix, Index::LastIndex(k) if k == i32::MAX), "last + i32::MAX");
 }
 
-//@ props: C20, C08
+//@ props: C20
 //@ timeout: 1800
 //@ desc: Selector::convert_slice with EVERY pair of bound operands (each a plain i32 or last+k) and every array length 1..=2: no arithmetic overflow, no panic, and the result is exactly the positions p with start <= p <= end that exist in the array, in increasing order (so every returned index is below the length)
 //@ fns: Selector::convert_slice
